@@ -88,11 +88,14 @@ impl ScriptStack for Vec<Vec<u8>> {
     fn pop_bool(&mut self) -> Result<bool, InterpreterError> {
         let data = self.pop().ok_or(InterpreterError::EmptyStack)?;
 
-        if data.len() > 4 {
-            return Err(InterpreterError::TooLongForBool);
+        // False is any number of zero bytes, optionally ending in the sign bit (negative zero). Everything else is true.
+        for (i, byte) in data.iter().enumerate() {
+            if *byte != 0 {
+                return Ok(!(i == data.len() - 1 && *byte == 0x80));
+            }
         }
 
-        Ok(BigInt::from_signed_bytes_le(&data) >= BigInt::from_slice(num_bigint::Sign::Plus, &[1]))
+        Ok(false)
     }
 
     fn push_bool(&mut self, boolean: bool) -> Result<(), InterpreterError> {
